@@ -225,16 +225,18 @@ func (s *recStore) Append(ctx context.Context, e *eb.Event) (eb.Offset, error) {
 		cs.emit("!stored-type-name %s for value %d", e.Type, pl.V)
 	}
 	fails := false
+	var failure error = errors.New("injected append failure")
 	if len(cs.faults) > 0 {
 		fails = cs.faults[0] != 0
 		if cs.faults[0] == 2 && cs.ptimeout {
-			<-ctx.Done() // a store that hangs until the persistence timeout expires
+			<-ctx.Done() // a store that hangs until the persistence timeout expires, and says so
+			failure = fmt.Errorf("append gave up: %w", ctx.Err())
 		}
 		cs.faults = cs.faults[1:]
 	}
 	if fails {
 		cs.emit("append %d %d %d %d 0 0", depthOf(ctx), s.sid, tyOfName(e.Type), pl.V)
-		return "", errors.New("injected append failure")
+		return "", failure
 	}
 	off, err := s.inner.Append(ctx, e)
 	cs.emit("append %d %d %d %d %s %d", depthOf(ctx), s.sid, tyOfName(e.Type), pl.V, b01(err == nil), atoi(strings.TrimLeft(string(off), "0")))
